@@ -71,6 +71,9 @@ __CPROVER_ensures ((ENTERED && vin_seekable && !MODE_MISMATCH && IS_TELL && (WMO
 					(__CPROVER_return_value == CUR_BASE && UNCHANGED && g_seek_calls == 0 && PSF->last_op == vin_last_op)) /*@C06.tell_reports_next_frame_changes_nothing*/
 __CPROVER_ensures ((ENTERED && vin_seekable && whence == SEEK_CUR && offset == 0 && vin_mode == SFM_RDWR) ==>
 					((__CPROVER_return_value == vin_rc || __CPROVER_return_value == vin_wc || __CPROVER_return_value == PSF_SEEK_ERROR) && UNCHANGED)) /*@C06.tell_rdwr_changes_nothing*/
+/* what a plain tell in read/write mode actually does (relied upon by the command.c units; see KF2) */
+__CPROVER_ensures ((ENTERED && vin_seekable && whence == SEEK_CUR && offset == 0 && vin_mode == SFM_RDWR && __CPROVER_return_value != PSF_SEEK_ERROR) ==>
+					(__CPROVER_return_value == vin_wc && PSF->read_current == vin_wc && PSF->write_current == vin_wc))
 /* ---- successful seeks (C06, C08) ---- */
 __CPROVER_ensures ((VALID_SEEK && !IS_TELL && __CPROVER_return_value != PSF_SEEK_ERROR) ==> __CPROVER_return_value == TARGET) /*@C06.seek_returns_requested_absolute_position*/
 __CPROVER_ensures ((VALID_SEEK && !IS_TELL) ==> (g_seek_calls == 1 && g_seek_arg == TARGET && g_seek_mode == EFF_MODE)) /*@C06.codec_positioned_at_target*/
